@@ -50,8 +50,8 @@ def run(ctx):
     if thorough:
         h.emit(ctx, "A", "AclGen.cfg", SET="A", GenDepth=2, FullDepth=1, BatchDepth=1, timeout=3000)
         h.emit(ctx, "B", "AclGen.cfg", SET="B", GenDepth=1, FullDepth=1, BatchDepth=0, timeout=3000)
-        h.emit(ctx, "A-deep", "AclGen.cfg", SET="A", SimDepth=4, SimSample=8, simulate=60, depth=5, timeout=3000)
-        h.emit(ctx, "B-deep", "AclGen.cfg", SET="B", SimDepth=5, SimSample=8, simulate=60, depth=6, timeout=3000)
+        h.emit(ctx, "A-deep", "AclGen.cfg", SET="A", SimDepth=4, SimSample=8, simulate=40, depth=5, timeout=3000)
+        h.emit(ctx, "B-deep", "AclGen.cfg", SET="B", SimDepth=5, SimSample=8, simulate=40, depth=6, timeout=3000)
     else:
         h.emit(ctx, "A", "AclGen.cfg", SET="A", GenDepth=1, FullDepth=0, BatchDepth=0)
         h.emit(ctx, "D", "AclGen.cfg", SET="D", GenDepth=2, FullDepth=2, BatchDepth=0)
